@@ -194,6 +194,32 @@ namespace bxdecay0 {
   bool event_reader::_check_next_event_()
   {
     if (is_trace()) std::cerr << "[trace] bxdecay0::event_reader::_check_next_event_: Entering...\n";
+    // Consume the events located before the start of the window, so that a window which
+    // starts beyond the end of the aggregated stream does not announce any event:
+    while (_pimpl_->fin and not _terminated_ and _pimpl_->parsed_event_counter < _config_.start_event) {
+      std::ifstream & fin = *(_pimpl_->fin);
+      int evId = -1;
+      double evTime = 0.0;
+      std::string decayGenName;
+      int nbParticles = 0;
+      fin >> evId >> std::ws >> evTime >> std::ws >> decayGenName >> std::ws >> nbParticles >> std::ws;
+      for (int iPart = 0; fin and iPart < nbParticles; iPart++) {
+        int partCode = 0;
+        double partTime, px, py, pz;
+        fin >> partCode >> std::ws >> partTime >> std::ws >> px >> std::ws >> py >> std::ws >> pz >> std::ws;
+      }
+      if (!fin) {
+        throw std::runtime_error("bxdecay0::event_reader::_check_next_event_: Invalid/corrupted event format!");
+      }
+      _pimpl_->last_event_in_file_index++;
+      _pimpl_->parsed_event_counter++;
+      if (fin.eof()) {
+        _close_current_file_();
+        if (not is_terminated()) {
+          _open_new_file_();
+        }
+      }
+    }
     if (not _pimpl_->fin) {
       if (is_trace()) std::cerr << "[trace] bxdecay0::event_reader::_check_next_event_: No input file stream!\n";
       return false;
